@@ -210,7 +210,8 @@ pub fn into_tokens(c: char, it: &mut Peekable<Chars>, state: &mut State) -> LexR
                     }
                 }
 
-                back_slash = c == '\\';
+                // a backslash which is escaped itself does not escape what follows
+                back_slash = c == '\\' && !back_slash;
             }
 
             if !terminated {
